@@ -2368,3 +2368,16 @@ where
     let (outbound, _) = new_ws_builder(host, port, ws_config)?.connect_on(outbound, Tracked(vlog)).map_err(|e| verif_err())?;
     Ok(WebSocketFramed::new(outbound, codec))
 }
+
+//@@ octo-squirrel-client/src/client/template.rs:368-378  fn rustls_stream  sha=916d255d3a37d89f
+fn rustls_stream(host: &str, port: u16, ssl_config: &SslConfig, Tracked(vlog): Tracked<&mut TransportLog>) -> Result<TlsStream<TcpStream>> {
+    let stream = TcpStream::connect((host, port), Tracked(vlog))?;
+    let config = rustls_client_config(ssl_config)?;
+    let connector = TlsConnector::from(Arc::new(config));
+    let server_name = if let Some(server_name) = &ssl_config.server_name {
+        ServerName::try_from(server_name.to_owned())?
+    } else {
+        ServerName::try_from(host.to_owned())?
+    };
+    connector.connect(server_name, stream, Tracked(vlog)).map_err(|e| verif_err())
+}
